@@ -144,6 +144,11 @@ def pkcs1_rows(prog, sh=None):
                                                 len(sentinel), exp, out])
                     n += 1
                     idx = ref_pkcs1(em, exp)
+                    if isinstance(r, int) and r < 0:
+                        # an argument refusal although every argument of this row is in the documented domain
+                        wrong.append("k=%d, %s, %d-byte sentinel, expected length %d: refused with %r although the arguments are valid (expected length <= k - 11)" % (
+                            k, what, len(sentinel), exp, r))
+                        continue
                     got = list(m.concrete_bytes(out, k))
                     if idx is not None:
                         ok = (r == idx and got == em)
